@@ -818,16 +818,75 @@ func RDirTrunc(c *core.Ctx) {
 		return
 	}
 	n := 0
+	// direction PARAMETERS: bool parameters that some call site in the package feeds with a
+	// value derived from Options&RightToLeft (newBmPrefix(pattern, ci, rtl))
+	dirParams := map[*ast.FuncDecl]map[types.Object]bool{}
+	for _, caller := range p.FuncDecls(syn) {
+		if caller.Body == nil || p.IsTestFile(caller.Pos()) {
+			continue
+		}
+		cdv := directionVars(info, caller, rtlConst)
+		ast.Inspect(caller.Body, func(x ast.Node) bool {
+			call, ok := x.(*ast.CallExpr)
+			if !ok {
+				return true
+			}
+			fn := core.Callee(info, call)
+			if fn == nil || fn.Pkg() != syn.Types {
+				return true
+			}
+			cd, _ := p.DeclOf(fn)
+			if cd == nil || cd.Type.Params == nil {
+				return true
+			}
+			var prms []types.Object
+			for _, f := range cd.Type.Params.List {
+				for _, id := range f.Names {
+					prms = append(prms, info.ObjectOf(id))
+				}
+			}
+			for i, a := range call.Args {
+				if i >= len(prms) || prms[i] == nil {
+					continue
+				}
+				if bt, ok := prms[i].Type().Underlying().(*types.Basic); ok && bt.Info()&types.IsBoolean != 0 && mentionsRTL(info, a, rtlConst, cdv) {
+					if dirParams[cd] == nil {
+						dirParams[cd] = map[types.Object]bool{}
+					}
+					dirParams[cd][prms[i]] = true
+				}
+			}
+			return true
+		})
+	}
 	for _, fd := range p.FuncDecls(syn) {
 		if fd.Body == nil || p.IsTestFile(fd.Pos()) {
 			continue
 		}
 		dv := directionVars(info, fd, rtlConst)
+		texts := map[string]bool{}
+		if dp := dirParams[fd]; len(dp) > 0 {
+			for o := range dp {
+				dv[o] = true
+			}
+			// a text that comes IN together with a direction is as direction-bound as one handed on with it
+			for _, f := range fd.Type.Params.List {
+				for _, id := range f.Names {
+					switch t := info.ObjectOf(id).Type().Underlying().(type) {
+					case *types.Slice:
+						texts[id.Name] = true
+					case *types.Basic:
+						if t.Info()&types.IsString != 0 {
+							texts[id.Name] = true
+						}
+					}
+				}
+			}
+		}
 		if len(dv) == 0 {
 			continue
 		}
 		// texts passed along with a direction
-		texts := map[string]bool{}
 		ast.Inspect(fd.Body, func(x ast.Node) bool {
 			call, ok := x.(*ast.CallExpr)
 			if !ok {
